@@ -94,12 +94,19 @@ FUNCS += [
     dict(id='IndexFromStr', file='src/index.rs', fn='from_str', impl=r"impl FromStr for Index", lean='Index.from_str',
          params=[('s', 'bytes')], ret='res', rtype='Res ParseIndexError Index'),
 ]
-SIBLINGS = {'split_front': ('Pointer.split_front', 'opt(tuple:tok,ptrself)'), 'is_root': ('Pointer.is_root', 'bool'), 'count': ('Pointer.count', 'nat'), 'split_at': ('Pointer.split_at', 'opt(tuple:bytes,bytes)'),
+DEL_T = 'Val × Res Unit (Option Val)'
+FUNCS += [
+    dict(id='DeleteJson', file='src/delete.rs', fn='delete', mod='json', impl=r"impl Delete for Value", lean='json.delete',
+         params=[('self', 'docself'), ('ptr', 'ptrself')], ret='mutdoc', rtype=DEL_T, imports=['ResolveMutJson', 'SplitBack', 'ForLen'], backend='json'),
+    dict(id='DeleteToml', file='src/delete.rs', fn='delete', mod='toml', impl=r"impl Delete for Value", lean='toml.delete',
+         params=[('self', 'docself'), ('ptr', 'ptrself')], ret='mutdoc', rtype=DEL_T, imports=['ResolveMutToml', 'SplitBack', 'ForLen'], backend='toml'),
+]
+SIBLINGS = {'split_back': ('Pointer.split_back', 'opt(tuple:ptrself,tok)'), 'split_front': ('Pointer.split_front', 'opt(tuple:tok,ptrself)'), 'is_root': ('Pointer.is_root', 'bool'), 'count': ('Pointer.count', 'nat'), 'split_at': ('Pointer.split_at', 'opt(tuple:bytes,bytes)'),
             'front': ('Pointer.front', 'opt(bytes)'), 'back': ('Pointer.back', 'opt(bytes)')}
 
 LEANTY = {'nat': 'Nat', 'bool': 'Bool', 'bytes': 'Bytes', 'cow': 'Cow', 'optnat': 'Option Nat', 'toklist': 'List Bytes',
           'tok': 'Bytes', 'index': 'Index', 'bound': 'Bound', 'ptr': 'Bytes', 'span': 'Span', 'tokself': 'Bytes',
-          'intocow': 'Bytes', 'unit': 'Unit', 'ptrself': 'Bytes', 'vref': 'Loc × Val', 'vroot': 'Val', 'bufself': 'Bytes', 'intotoken': 'Bytes', 'asrefptr': 'Bytes'}
+          'intocow': 'Bytes', 'unit': 'Unit', 'ptrself': 'Bytes', 'vref': 'Loc × Val', 'vroot': 'Val', 'bufself': 'Bytes', 'intotoken': 'Bytes', 'asrefptr': 'Bytes', 'docself': 'Val', 'val': 'Val'}
 
 # enums the subset may match on / construct: type tag -> [(lean ctor, [rust paths], [field types])]
 ENUMS = {
@@ -315,6 +322,7 @@ class Fn:
                     return self.E((self.cst[v][0], self.cst[v][1]), env, ctx, k)
                 if v == 'None': return k('none', 'optnat')
             if ps in UNITCTORS: return k(UNITCTORS[ps][0], UNITCTORS[ps][1])
+            if ps == 'Value::Null' and self.spec.get('backend') == 'json': return k('(Val.scalar [110])', 'val')
             for ty, ctors in ENUMS.items():
                 for (lc, rps, fts) in ctors:
                     if ps in rps and not fts:
@@ -358,6 +366,9 @@ class Fn:
                     if a.startswith('(Res.err '): return ctx.ret(a)
                     v = self.fresh('v'); ev = self.fresh('e'); mv = self.fresh('m')
                     return paren(f"match {a} with\n| .err {ev} => {ctx.ret(f'(Res.err {ev})')}\n| .panic {mv} => {ctx.ret(f'(Res.panic {mv})')}\n| .ok {v} =>\n{ind(k(v, tt))}")
+                if is_opt(ta) and self.retkind == 'mutdoc':
+                    v = self.fresh('v')
+                    return paren(f"match {a} with\n| none => {ctx.ret('.ok none')}\n| some {v} =>\n{ind(k(v, opt_inner(ta)))}")
                 if ta != 'optnat': raise Unsupported("? on " + ta)
                 if self.retkind != 'optres': raise Unsupported("? in a function not returning Option")
                 v = self.fresh('v')
@@ -403,6 +414,10 @@ class Fn:
             if ps in ('core::mem::take', 'mem::take', 'std::mem::take') and len(args) == 1 and args[0] == ('un', '&', ('field', ('path', ['self']), '0')) and env.get('self_0') == 'bytes':
                 old = self.fresh('old')
                 return f"let {old} := self_0\nlet self_0 := ([] : Bytes)\n{k(old, 'bytes')}"
+            if ps in ('mem::replace', 'core::mem::replace', 'std::mem::replace') and len(args) == 2 and args[0] == ('path', ['self']) and env.get('self_doc') == 'val':
+                old = self.fresh('old')
+                return self.E(args[1], env, ctx, lambda a, ta: f"let {old} := self_doc\nlet self_doc := {a}\n{k(old, 'val')}" if ta == 'val' else self.bad("mem::replace with " + ta))
+            if ps == 'Table::default' and not args: return k('TABLE0', 'table0')
             if ps in ('Vec::new', 'String::new') and not args: return k('([] : Bytes)', 'bytes')
             if ps == 'String::from' and len(args) == 1: return self.E(args[0], env, ctx, lambda a, ta: k(a, 'bytes') if ta in BYTESLIKE else self.bad("String::from(" + ta + ")"))
             if ps == 'ParseIndexError::InvalidCharacter' and len(args) == 1:
@@ -612,6 +627,13 @@ class Fn:
                 return self.E(args[0], env, ctx, aft_key)
             if tr == 'index' and name == 'for_len' and len(args) == 1:
                 return self.E(args[0], env, ctx, lambda a, ta: k(f"(Index.for_len {r} {a})", mk_res('nat', 'ooberr')))
+            if is_res(tr) and name == 'ok' and not args:
+                tt, te = res_parts(tr)
+                if self.retkind not in ('mutdoc', 'res', 'optres'): raise Unsupported(".ok() where a panic cannot be propagated")
+                o = self.fresh('o'); mv = self.fresh('m')
+                pan = ctx.ret(f"(Res.panic {mv})") if self.retkind != 'optres' else ctx.ret(f".panic {mv}")
+                # a panic inside the callee is not swallowed by `.ok()`: it propagates; otherwise Ok(v) ↦ Some(v), Err(_) ↦ None
+                return paren(f"match panicOf {r} with\n| some {mv} => {pan}\n| none =>\n" + ind(f"let {o} := okOf {r}\n" + k(o, mk_opt(tt))))
             if is_res(tr) and name == 'map_err' and len(args) == 1 and args[0][0] == 'closure':
                 tt, te = res_parts(tr)
                 pat, env2 = self.closure_head(args[0], te, env)
@@ -621,6 +643,25 @@ class Fn:
             if is_opt(tr) and name == 'ok_or' and len(args) == 1:
                 v = self.fresh('v')
                 return self.E(args[0], env, ctx, lambda a, ta: k(paren(f"match {r} with\n| some {v} => Res.ok {v}\n| none => Res.err {a}"), mk_res(opt_inner(tr), ta)))
+            if tr == 'ptrself' and name == 'resolve_mut' and len(args) == 1 and args[0] == ('path', ['self']) and env.get('self_doc') == 'val':
+                fn = 'json.resolve_mut' if self.spec.get('backend') == 'json' else 'toml.resolve_mut'
+                return k(f"({fn} self_doc {r})", mk_res('vref', 'resolveerr'))
+            if tr == 'aref' and name == 'remove' and len(args) == 1 and env.get('self_doc') == 'val':
+                def aft_rm(i, ti):
+                    v = self.fresh('v')
+                    pan = ctx.ret('(Res.panic "removal index (is idx) should be < len")')
+                    upd = f"let self_doc := self_doc.setAt {r}.1 (Val.arr ({r}.2.eraseIdx {i}))" + chr(10) + k(v, 'val')
+                    return paren(f"match {r}.2[{i}]? with" + chr(10) + f"| none => {pan}" + chr(10) + f"| some {v} =>" + chr(10) + ind(upd))
+                return self.E(args[0], env, ctx, aft_rm)
+            if tr == 'oref' and name == 'remove' and len(args) == 1 and env.get('self_doc') == 'val':
+                def aft_rk(a, ta):
+                    if ta not in BYTESLIKE: raise Unsupported("map key of type " + ta)
+                    v = self.fresh('v')
+                    return paren(f"match lookup {a} {r}.2 with\n| none =>\n{ind(k('none', 'opt(val)'))}\n| some {v} =>\n" +
+                                 ind(f"let self_doc := self_doc.setAt {r}.1 (Val.obj (eraseKey {a} {r}.2))\n" + k(f"(some {v})", 'opt(val)')))
+                return self.E(args[0], env, ctx, aft_rk)
+            if tr == 'val' and name == 'into' and not args and self.retkind == 'mutdoc': return k(f"(some {r})", 'opt(val)')
+            if tr == 'table0' and name == 'into' and not args: return k('(Val.obj [])', 'val')
             # ---- &Pointer / &str receivers -------------------------------------------------------
             if tr in BYTESLIKE:
                 if name in SIBLINGS and tr == 'ptrself':
@@ -909,6 +950,15 @@ class Fn:
                     return paren(f"match {a} with\n| ({names}) =>\n{ind(rest(env2))}")
                 return self.E(init, env, ctx, after)
             raise Unsupported("let pattern")
+        if kind == 'letelse':
+            pat, init, eb = self.strip_ref(st[1]), st[2], st[3]
+            if not (pat[0] == 'pctor' and self.pathstr(pat[1]) == 'Some' and len(pat[2]) == 1): raise Unsupported("let-else pattern")
+            def after_le(a, ta):
+                if not is_opt(ta): raise Unsupported("let-else on " + ta)
+                binder, env2 = self.closure_head(('closure', [pat[2][0]], None), opt_inner(ta), env)
+                els = self.S(self.norm_stmt_block(eb), env, ctx, lambda e3: self.bad("the else block of a let-else must diverge"))
+                return paren(f"match {a} with\n| none =>\n{ind(els)}\n| some {binder} =>\n{ind(rest(env2))}")
+            return self.E(init, env, ctx, after_le)
         if kind == 'assign':
             lhs, op, rhs = st[1], st[2], st[3]
             if lhs[0] == 'field' and lhs[1] == ('path', ['self']) and lhs[2] == '0' and env.get('self_0') == 'bytes':
@@ -1078,6 +1128,24 @@ class Fn:
                 if ta == 'optres-call': return ctx.ret(a)
                 raise Unsupported("returned " + ta)
             return self.E(e, env, ctx, after)
+        if rk == 'mutdoc':
+            if t == 'path' and e[1] == ['None']: return ctx.ret('.ok none')
+            if t == 'call' and e[1][0] == 'path' and self.pathstr(e[1][1]) == 'Some' and len(e[2]) == 1:
+                return self.E(e[2][0], env, ctx, lambda a, ta: ctx.ret(f".ok (some {a})") if ta == 'val' else self.bad("Some(" + ta + ")"))
+            if t == 'mcall' and e[2] == 'and_then' and len(e[3]) == 1 and e[3][0][0] == 'closure' and len(e[3][0][1]) == 1:
+                # `opt.and_then(|x| body)` as the returned value: the closure's result is the function's result, so its `?`
+                # and its `None` leave the function
+                cl = e[3][0]
+                def after_at(a, ta):
+                    if not is_opt(ta): raise Unsupported("and_then on " + ta)
+                    binder, env2 = self.closure_head(cl, opt_inner(ta), env)
+                    body = self.S([('expr', self.to_return(self.as_block(cl[2])))], env2, ctx, lambda e3: self.bad("closure falls off its end"))
+                    return paren(f"match {a} with\n| none => {ctx.ret('.ok none')}\n| some {binder} =>\n{ind(body)}")
+                return self.E(e[1], env, ctx, after_at)
+            def after_md(a, ta):
+                if ta == 'opt(val)': return ctx.ret(f".ok {a}")
+                raise Unsupported("returned " + ta)
+            return self.E(e, env, ctx, after_md)
         if rk == 'mutself':
             if t == 'mcall' and e[2] == 'then' and len(e[3]) == 1 and e[3][0][0] == 'closure' and not e[3][0][1]:
                 # `cond.then(|| { … })` as the returned value: `if cond { Some({ … }) } else { None }`
@@ -1271,6 +1339,9 @@ class Fn:
                 env['self'] = 'alias:(self_0, self_1):tuple:bound,bound'
             elif rep == 'tokself':
                 lparams.append(('self', 'tokself')); env['self.inner'] = 'alias:self:tok'
+            elif rep == 'docself':
+                # `&mut self` of a document: the mutable variable `self_doc`; every exit returns it with the result
+                lparams.append(('self_doc', 'val')); env['self_doc'] = 'val'; env['self'] = 'alias:self_doc:docref'
             elif rep == 'bufself':
                 # `&mut self` of a PointerBuf: its text is the mutable variable `self_0`; every exit returns it
                 lparams.append(('self_0', 'bytes')); env['self_0'] = 'bytes'; env['self'] = 'alias:self_0:ptrself'
@@ -1279,6 +1350,11 @@ class Fn:
                 lparams.append((ln, rep)); env[ln] = rep
         if len(rnames) != len(spec['params']): raise Unsupported(f"parameter list changed: {rnames}")
         ctx = Ctx(lambda t: t)
+        if self.retkind == 'mutdoc':
+            ctx = Ctx(lambda t: f"(self_doc, {t})")
+            code = self.S(self.norm_stmt_block(self.to_return(self.block)), env, ctx, lambda env2: self.bad("function body falls off its end"))
+            ps = ''.join(f" ({n} : {LEANTY[t]})" for n, t in lparams)
+            return '\n\n'.join(self.loops + [f"def {spec['lean']}{ps} : {self.rtype} :=\n{ind(code)}"])
         if self.retkind == 'mutself':
             pair = '×' in self.rtype
             ctx = Ctx((lambda t: f"(self_0, {t})") if pair else (lambda t: "self_0"))
